@@ -1,3 +1,4 @@
+import HttpcoreModel.Props.Life
 import HttpcoreModel.H2
 /-!
 # C12 — HTTP/2 streams are isolated, bounded and cannot wedge each other
